@@ -100,6 +100,8 @@ impl Game {
 
         let mut row = 7;
         let mut col = 0;
+        // Number of pieces of each kind, indexed like zobrist::PIECE
+        let mut piece_counts = [0u8; 12];
 
         for character in pieces.chars() {
             match character {
@@ -124,6 +126,7 @@ impl Game {
                             Player::Black => black_king_pos = Some(Position::new_assert(row, col)),
                         }
                     }
+                    piece_counts[piece.as_index()] += 1;
                     let position = Position::new_assert(row, col);
                     board[position.as_usize()] = Some(piece);
                     past_scores[position.as_usize()] = piece.score(position, &piece_scores);
@@ -152,6 +155,19 @@ impl Game {
 
         if row != 0 || col != 8 {
             bail!("Invalid board size");
+        }
+
+        // The move buffers hold 256 moves, which is only enough for material that can arise in
+        // a game: one king, and at most 8 pawns and promoted pieces together per side
+        for counts in piece_counts.chunks(6) {
+            let count = |piece_type: PieceType| counts[piece_type as usize];
+            let promoted = count(PieceType::Queen).saturating_sub(1)
+                + count(PieceType::Rook).saturating_sub(2)
+                + count(PieceType::Bishop).saturating_sub(2)
+                + count(PieceType::Knight).saturating_sub(2);
+            if count(PieceType::King) != 1 || count(PieceType::Pawn) + promoted > 8 {
+                bail!("Impossible material");
+            }
         }
 
         let Some(next_player) = terms.next() else {
